@@ -31,7 +31,7 @@ m = {
               'source_commits': tab.get('hook_commits', []), 'add_only': True},
     'engines': tab.get('engines', []),
     'checks': checks,
-    'notes': tab.get('notes', ''),
+    'notes': tab.get('notes', '') + ' Fix commits in /repo: ' + '; '.join(tab.get('fix_commits', [])),
     'not_applicable': na,
 }
 json.dump(m, open(os.path.join(V, 'MANIFEST.json'), 'w'), indent=1)
